@@ -335,6 +335,15 @@ def mergeIr (s t : St) : St :=
 
 def freshIr (s : St) : St := { s with gets := [], sets := [], dels := [], calls := [] }
 
+/-- A sub-analyser (fresh `func_ir`) that ends in `error.fatal` / an exception never hands its IR
+back: what remains observable is the OUTER analyser's IR (plus every diagnostic emitted so far). -/
+def protect (outer : St) (r : Res) : Res :=
+  let keep (t : St) : St := { t with gets := outer.gets, sets := outer.sets, dels := outer.dels, calls := outer.calls }
+  match r with
+  | .ok t => .ok t
+  | .fatal t d => .fatal (keep t) d
+  | .crash t e => .crash (keep t) e
+
 /-- `unbind_ir_with_call_swaps(ir, {iterator: iterable})` on the visitor state; `none` = the
 `ValueError("never")`. -/
 def unbindSt (s : St) (iterator iterable : Str) : Option St :=
@@ -403,8 +412,8 @@ def visit (env : Env) (mn : Str) : Node → St → Res
           | [] => .ok s
           | a0 :: _ =>
             -- a fresh FunctionAnalyser over the SAME context object
-            visit env mn a0 (freshIr s) >>>= fun t =>
-            visitSortedKey env mn (namesOf true a0) kwn kwv t >>>= fun t => .ok (mergeIr s t)
+            protect s (visit env mn a0 (freshIr s) >>>= fun t =>
+              visitSortedKey env mn (namesOf true a0) kwn kwv t) >>>= fun t => .ok (mergeIr s t)
         else if q = "collections.defaultdict".toList then
           match args with
           | [] => .ok s
@@ -413,12 +422,12 @@ def visit (env : Env) (mn : Str) : Node → St → Res
             | .lam ps body =>
               -- FunctionAnalyser(lambda, ctx).analyse()
               let t := addArguments { (freshIr s) with ctx := Context.push s.ctx } ps
-              visit env mn body t >>>= fun t => .ok (mergeIr s { t with ctx := Context.pop t.ctx })
+              protect s (visit env mn body t) >>>= fun t => .ok (mergeIr s { t with ctx := Context.pop t.ctx })
             | .name id c => defaultdictNamed env (.name id c) s
             | .attr v a c => defaultdictNamed env (.attr v a c) s
             | e =>
               let t := { (freshIr s) with ctx := Context.push s.ctx }
-              visit env mn e t >>>= fun t => .ok (mergeIr s { t with ctx := Context.pop t.ctx })
+              protect s (visit env mn e t) >>>= fun t => .ok (mergeIr s { t with ctx := Context.pop t.ctx })
         else .ok s
       | none =>
         getAndVerify s node .load fun s _ fullname =>
@@ -517,7 +526,7 @@ def visitSortedKey (env : Env) (mn : Str) (iterableR : NameRes) :
           let iterator := (ps.args.head?).getD []
           liftName t iterableR fun _ iterable =>
             let lamCtx := Context.add (Context.push t.ctx) (Context.nameSym iterator) true
-            visit env mn body { (freshIr t) with ctx := lamCtx } >>>= fun l =>
+            protect t (visit env mn body { (freshIr t) with ctx := lamCtx }) >>>= fun l =>
             match unbindSt l iterator iterable with
             | none => .crash l "ValueError".toList
             | some l => .ok (mergeIr t { l with ctx := t.ctx })   -- the lambda's child Context is discarded
